@@ -285,11 +285,11 @@ void getMaxExtent(const Dimension &dim, ndsize_t max_index, double &pos, double 
     if (dt == DimensionType::Sample) {
         SampledDimension sd = dim.asSampledDimension();
         pos = sd.positionAt(0);
-        ext = sd.positionAt(max_index);
+        ext = sd.positionAt(max_index) - pos;
     } else if (dt == DimensionType::Range) {
         RangeDimension rd = dim.asRangeDimension();
         pos = rd.tickAt(0);
-        ext = rd.tickAt(max_index);
+        ext = rd.tickAt(max_index) - pos;
     } else if (dt == DimensionType::Set || dt == DimensionType::DataFrame) {
         pos = 0.0;
         ext = check::converts_to_double(max_index, double_fail_msg);
